@@ -1644,8 +1644,8 @@ class TimeDeltaSec(TimeDeltaFormat):
             except AttributeError:
                 val2 = 0
 
-        val *= Unit.second2day
-        val2 *= Unit.second2day
+        val = np.asarray(val) * Unit.second2day
+        val2 = np.asarray(val2) * Unit.second2day
         _delta = val - (np.floor(val + val2))
         jd1 = val - _delta
         jd2 = val2 + _delta
